@@ -522,3 +522,22 @@ func g8aShort(stmts []string) string {
 	}
 	return fmt.Sprintf("[%d stmts, last: %s]", len(stmts), last)
 }
+
+// g8aWaitApplied waits until follower f has applied (FSM included) everything
+// the leader l has in its log. It returns false when the deadline passes.
+func g8aWaitApplied(l, f *Store, deadline time.Time) bool {
+	for {
+		last := l.raft.LastIndex()
+		var lastCmd uint64
+		if fi, li, err := l.boltStore.Indexes(); err == nil && li != 0 {
+			lastCmd, _ = l.boltStore.LastCommandIndex(fi, li)
+		}
+		if f.raft.AppliedIndex() >= last && f.fsmIdx.Load() >= lastCmd {
+			return true
+		}
+		if time.Now().After(deadline) {
+			return false
+		}
+		time.Sleep(20 * time.Millisecond)
+	}
+}
